@@ -155,20 +155,56 @@ def check_py_interp(fn: ast.FunctionDef) -> Tuple[bool, str, dict]:
     cfg = CFG(fn)
     paths = [p for p in enumerate_paths(cfg) if p[-1] is cfg.EXIT]
     Yf, Xf, qs = sp.Function(Yn), sp.Function(X), sp.Symbol(q)
+    LEN = sp.Symbol("LEN", integer=True)
+
+    def leaf(n):
+        if isinstance(n, ast.Call) and isinstance(n.func, ast.Name) and n.func.id == "len" and len(n.args) == 1 \
+                and isinstance(n.args[0], ast.Name) and n.args[0].id in (X, Yn):
+            return LEN
+        if isinstance(n, ast.Subscript) and isinstance(n.value, ast.Attribute) and n.value.attr == "shape" and isinstance(n.value.value, ast.Name) \
+                and n.value.value.id in (X, Yn) and isinstance(n.slice, ast.Constant) and n.slice.value == 0:
+            return LEN
+        return None
+
+    def formula(t, env, pol=True):
+        """('atom', sympy relational) | ('and'|'or', [...]) | ('opaque',) with negation pushed to the atoms."""
+        if isinstance(t, ast.UnaryOp) and isinstance(t.op, ast.Not):
+            return formula(t.operand, env, not pol)
+        if isinstance(t, ast.BoolOp):
+            parts = [formula(v, env, pol) for v in t.values]
+            conj = isinstance(t.op, ast.And) == pol
+            return ("and" if conj else "or", parts)
+        if isinstance(t, ast.Compare) and len(t.ops) == 1:
+            ops = {ast.Lt: sp.Lt, ast.LtE: sp.Le, ast.Gt: sp.Gt, ast.GtE: sp.Ge, ast.Eq: sp.Eq, ast.NotEq: sp.Ne}
+            neg = {sp.Lt: sp.Ge, sp.Le: sp.Gt, sp.Gt: sp.Le, sp.Ge: sp.Lt, sp.Eq: sp.Ne, sp.Ne: sp.Eq}
+            o = ops.get(type(t.ops[0]))
+            if o is not None:
+                try:
+                    l = symx.to_sympy(t.left, env=env, leaf=leaf)
+                    r = symx.to_sympy(t.comparators[0], env=env, leaf=leaf)
+                    return ("atom", (o if pol else neg[o])(l, r, evaluate=False) if o in (sp.Eq, sp.Ne) else (o if pol else neg[o])(l - r, 0, evaluate=False))
+                except (symx.Unsupported, TypeError):
+                    pass
+        return ("opaque",)
     n_interior = 0
     results = []
+    pathinfo = []          # (path, decisions [(if-node, taken_true, formula)], return stmt, returned sympy expr)
     for path in paths:
         env: Dict[str, sp.Expr] = {}
         ret = None
-        for st in path:
+        decisions = []
+        for k, st in enumerate(path):
+            if isinstance(st, ast.If) and k + 1 < len(path):
+                taken = "true" in cfg.g[st][path[k + 1]]["labels"]
+                decisions.append((st, taken, formula(st.test, env, taken)))
             if isinstance(st, ast.Assign) and len(st.targets) == 1:
                 t, v = st.targets[0], st.value
                 try:
                     if isinstance(t, ast.Name):
-                        env[t.id] = symx.to_sympy(v, env=env)
+                        env[t.id] = symx.to_sympy(v, env=env, leaf=leaf)
                     elif isinstance(t, ast.Tuple) and isinstance(v, ast.Tuple) and len(t.elts) == len(v.elts) \
                             and all(isinstance(e, ast.Name) for e in t.elts):
-                        vals = [symx.to_sympy(e, env=env) for e in v.elts]
+                        vals = [symx.to_sympy(e, env=env, leaf=leaf) for e in v.elts]
                         for e, val in zip(t.elts, vals):
                             env[e.id] = val
                     else:
@@ -183,10 +219,11 @@ def check_py_interp(fn: ast.FunctionDef) -> Tuple[bool, str, dict]:
         if ret is None or ret.value is None:
             return False, "a path through the helper returns nothing", facts
         try:
-            expr = symx.to_sympy(ret.value, env=env)
+            expr = symx.to_sympy(ret.value, env=env, leaf=leaf)
         except symx.Unsupported as e:
             raise AnalysisError(f"interp helper: unsupported return expression: {e}")
         results.append((ret, expr))
+        pathinfo.append((path, decisions, ret, expr))
     seen = set()
     for ret, expr in results:
         key = (id(ret), str(expr))
@@ -213,7 +250,115 @@ def check_py_interp(fn: ast.FunctionDef) -> Tuple[bool, str, dict]:
     for n in ast.walk(fn):
         if isinstance(n, ast.If):
             facts.setdefault("branch", ast.unparse(n.test))
+    bad = _range_guard_defect(pathinfo, Yf, Xf, qs, LEN, Yn, X)
+    if bad is not None:
+        return False, bad, facts
     return True, "linear interpolant between two adjacent samples", facts
+
+
+def _range_guard_defect(pathinfo, Yf, Xf, qs, LEN, Yn, X) -> Optional[str]:
+    """The index-range guard of the helper: a path interpolates only with both bracket indices inside 0..len-1, and a path falls
+    back to a single sample *because of the bracket's position* only when the bracket really leaves that range.  Decided for
+    guards that compare the bracket indices with 0 / len(x) (unit coefficients): each guard is read as a formula of linear integer
+    atoms; implication is decided exactly on a small integer box (small-model property of unit difference constraints).
+    Guards on anything else (the query against x[0]/x[-1], opaque tests) are not judged."""
+    import itertools
+
+    def bracket(expr):
+        if expr.func == Yf and len(expr.args) == 1:
+            return None
+        cands = sorted({a.args[0] for a in expr.atoms(sp.Function) if a.func == Yf and len(a.args) == 1}, key=str)
+        return next((c for c in cands if symx.is_linear_interpolant(expr, q=qs, Y=Yn, X=X, lo=c, hi=c + 1)), None)
+
+    def dnf(f):
+        k = f[0]
+        if k == "atom":
+            return [[f[1]]]
+        if k == "opaque":
+            return [[None]]
+        parts = [dnf(x) for x in f[1]]
+        if k == "or":
+            return [c for p in parts for c in p]
+        out = [[]]
+        for p in parts:
+            out = [a + b for a in out for b in p]
+        return out
+
+    def abstract(e, table):
+        """replace non-arithmetic function applications (argmin(...), searchsorted(...)) by integer symbols"""
+        def rep(x):
+            if x not in table:
+                table[x] = sp.Symbol(f"I{len(table)}", integer=True)
+            return table[x]
+        return e.replace(lambda x: isinstance(x, sp.core.function.AppliedUndef), rep)
+
+    def sat(cons, syms):
+        """exact satisfiability over the integers for unit-coefficient constraints with small constants"""
+        import operator
+        syms = sorted(syms, key=str)
+        OPS = {sp.Lt: operator.lt, sp.Le: operator.le, sp.Gt: operator.gt, sp.Ge: operator.ge, sp.Eq: operator.eq, sp.Ne: operator.ne,
+               sp.StrictLessThan: operator.lt, sp.LessThan: operator.le, sp.StrictGreaterThan: operator.gt, sp.GreaterThan: operator.ge}
+        lin = []
+        for c in cons:
+            lhs = sp.expand(c.lhs - c.rhs)
+            try:
+                poly = sp.Poly(lhs, *syms)
+            except sp.PolynomialError:
+                raise AnalysisError(f"interp helper: index-range guard `{c}` is not a linear comparison (unrecognised form)")
+            coefs = [int(poly.coeff_monomial(s_)) if poly.coeff_monomial(s_).is_Integer else None for s_ in syms]
+            const = poly.coeff_monomial(1)
+            if poly.total_degree() > 1 or any(co is None or abs(co) > 1 for co in coefs) or not const.is_Integer or abs(const) > 4:
+                raise AnalysisError(f"interp helper: index-range guard `{c}` is not a unit-coefficient comparison (unrecognised form)")
+            lin.append((coefs, int(const), OPS[type(c)]))
+        dom = [range(1, 10) if s_ == LEN else range(-5, 14) for s_ in syms]
+        for vals in itertools.product(*dom):
+            if all(op(sum(co * v for co, v in zip(coefs, vals)) + const, 0) for coefs, const, op in lin):
+                return dict(zip(syms, vals))
+        return None
+
+    interior = [(p, d, r, e, bracket(e)) for p, d, r, e in pathinfo]
+    interior_paths = [x for x in interior if x[4] is not None]
+    for path, decisions, ret, expr, lo in interior:
+        table = {}
+        if lo is not None:
+            # interpolating path: its conditions must confine the bracket to the grid
+            lo_a = abstract(lo, table)
+            for conj in itertools.product(*[dnf(f) for _, _, f in decisions]) if decisions else [()]:
+                atoms = [abstract(a, table) for c in conj for a in c if a is not None]
+                atoms = [a for a in atoms if a.free_symbols <= (set(table.values()) | {LEN})]
+                syms = set().union(*[a.free_symbols for a in atoms], lo_a.free_symbols, {LEN})
+                for viol, what in ((sp.Lt(lo_a, 0), "a negative index (wraps around to the end of the array)"),
+                                   (sp.Gt(lo_a + 1, LEN - 1), "an index past the last sample")):
+                    w = sat(atoms + [viol], syms)
+                    if w is not None:
+                        return (f"the path returning `{ast.unparse(ret.value)[:60]}` interpolates with the bracket ({lo}, {lo + 1}) although its "
+                                f"conditions allow {what} (e.g. {w})")
+            continue
+        # fallback path: pair it with the interpolating path that shares the longest prefix of decisions
+        best, best_k = None, -1
+        for ip in interior_paths:
+            k = 0
+            while k < len(decisions) and k < len(ip[1]) and decisions[k][0] is ip[1][k][0] and decisions[k][1] == ip[1][k][1]:
+                k += 1
+            if k < len(decisions) and k < len(ip[1]) and decisions[k][0] is ip[1][k][0] and k > best_k:
+                best, best_k = ip, k
+        if best is None:
+            continue
+        div = decisions[best_k][2]
+        lo_i = best[4]
+        lo_a = abstract(lo_i, table)
+        for conj in dnf(div):
+            if any(a is None for a in conj):
+                continue                    # guard on something that is not an index comparison: not judged
+            atoms = [abstract(a, table) for a in conj]
+            if not all(a.free_symbols <= (set(table.values()) | {LEN}) for a in atoms):
+                continue
+            syms = set().union(*[a.free_symbols for a in atoms], lo_a.free_symbols, {LEN})
+            w = sat(atoms + [sp.Ge(lo_a, 0), sp.Le(lo_a + 1, LEN - 1), sp.Ge(LEN, 2)], syms)
+            if w is not None:
+                return (f"the fall-back `{ast.unparse(ret)[:40]}` is taken under `{' and '.join(str(a) for a in atoms)}` although the bracket "
+                        f"({lo_i}, {lo_i + 1}) lies inside the grid (e.g. {w}): queries in that interval get a sample instead of the interpolant")
+    return None
 
 
 # ------------------------------------------------------------------------------------------------
